@@ -136,8 +136,9 @@ func String(attr version.AttrSet) string {
 				continue
 			}
 			// Quote what ParseString would not read back as one
-			// field: nothing, white space, or a leading quote.
-			if value == "" || value[0] == '"' || strings.IndexFunc(value, unicode.IsSpace) >= 0 {
+			// field: nothing, white space, or a leading quote; and what
+			// ParseSingle (ATTR: lines) would take for a raw string.
+			if value == "" || value[0] == '"' || value[0] == '`' || strings.IndexFunc(value, unicode.IsSpace) >= 0 {
 				value = strconv.Quote(value)
 			}
 			ss = append(ss, value)
